@@ -19,7 +19,8 @@ ProdScaleD(ops) == RMul(ProdScaleV(ops), FoldSeq(LAMBDA A, acc : RAdd(acc, MaxD(
 
 CheckCase(c) ==
   LET id == c.id IN
-  IF c.res.k = "exc" THEN Verdict(id, c.ev \o ": raised " \o c.res.t, FALSE)
+  IF c.ev = "frame" THEN Verdict(id, c.what, c.before = c.after)
+  ELSE IF c.res.k = "exc" THEN Verdict(id, c.ev \o ": raised " \o c.res.t, FALSE)
   ELSE
   CASE c.ev = "matmul" ->      \* product = explicit sum of element products
          IF c.complex THEN CId(c, c.res.m, CChain(c.ops), "matmul = sum of element products",
